@@ -35,6 +35,48 @@ def behaviours(cfg, num, seed, depth=120, timeout=900):
     return [json.loads(x) for x in sorted(out)], r
 
 
+def scripted_class(script, st):
+    """An integrator whose accepted step and proposed next step are played back from the model's behaviour (the integrator is the
+    environment of the design model; with ADAPTIVE = TRUE TLC chooses what it returns).  The script lives in a closure shared by every
+    instance: the system re-creates its integrator object on reset, on failures and when settings change."""
+    import desolver as de
+    from desolver.utilities.interpolation import CubicHermiteInterp
+
+    class Scripted(de.integrators.IntegratorTemplate):
+        order = 1
+        symplectic = False
+
+        def __init__(self, sys_dim, dtype=None, rtol=None, atol=None, device=None):
+            super().__init__()
+            self.dim, self.dtype, self.rtol, self.atol, self.device = sys_dim, dtype, rtol, atol, device
+            self.dState = self.dTime = None
+            self.final_rhs = None
+
+        @property
+        def is_adaptive(self):
+            return True
+
+        def __call__(self, rhs, initial_time, initial_state, constants, timestep):
+            f0 = rhs(initial_time, initial_state, **constants)      # an injected fault of this step raises here
+            if not script:
+                st["mism"].append({"what": "IntegratorCalls", "code": "one more integrator call than the model's behaviour has steps"})
+                raise Budget()
+            e = script.pop(0)
+            if Fraction(float(timestep)) != Fraction(e["h"]) * Fraction(S) and not st["approx"]:
+                st["mism"].append({"what": "RequestedStep", "model": e["h"] * S, "code": float(timestep), "nrows": e["nrows"]})
+            self.initial_time, self.initial_state, self.initial_rhs = initial_time, initial_state, f0
+            self.dTime = np.asarray(e["dT"] * S, dtype=np.float64) if not st["approx"] else np.asarray(min(abs(float(timestep)), abs(e["dT"] * S)) * np.sign(float(timestep)))
+            self.dState = self.dTime * f0
+            self.final_rhs = rhs(initial_time + self.dTime, initial_state + self.dState, **constants)
+            return np.asarray(e["newDt"] * S, dtype=np.float64), (self.dTime, self.dState)
+
+        def dense_output(self):
+            return (self.initial_time + self.dTime,
+                    CubicHermiteInterp(self.initial_time, self.initial_time + self.dTime, self.initial_state,
+                                       self.initial_state + self.dState, self.initial_rhs, self.final_rhs))
+    return Scripted
+
+
 def _events():
     fns = []
     for k in (1, 2, 3):
@@ -54,7 +96,8 @@ def _events():
 def replay(log, method):
     import desolver as de
     init = log[0]
-    st = {"arm": None, "depth": 0, "cbs": [], "cb_under": 0, "in_call": False}
+    st = {"arm": None, "depth": 0, "cbs": [], "cb_under": 0, "in_call": False, "mism": [], "approx": False}
+    script = []
     holder = {}
 
     def nrows():
@@ -76,7 +119,13 @@ def replay(log, method):
 
     sys_ = de.OdeSystem(rhs, y0=np.array([1.0, 0.0]), dense_output=True, t=(init["t0"] * S, init["tf"] * S), dt=init["dt0"] * S)
     holder["sys"] = sys_
-    sys_.method = method
+    if method == "scripted":
+        import warnings
+        with warnings.catch_warnings():
+            warnings.simplefilter("ignore")
+            sys_.set_method(scripted_class(script, st))
+    else:
+        sys_.method = method
     inner = sys_.integrate
 
     def integrate(*a, **kw):      # instance attribute: the library's nested landing call goes through it as well
@@ -117,13 +166,17 @@ def replay(log, method):
         if e["k"] == "reset":
             sys_.reset()
             approx = False
+            st["approx"] = False
             i += 1
         elif e["k"] == "call":
             ncall += 1
             j = i + 1
             cbs, fault = [], None
+            del script[:]
             while log[j]["k"] != "ret":
-                if log[j]["k"] == "cb":
+                if log[j]["k"] == "step":
+                    script.append(log[j])
+                elif log[j]["k"] == "cb":
                     cbs.append(log[j]["set"])
                 elif log[j]["k"] == "fault":
                     fault = log[j]
@@ -148,7 +201,11 @@ def replay(log, method):
             except de.exception_types.FailedIntegration as x:
                 raised = x
             except Budget:
-                mism.append({"call": ncall, "what": "RunTerminates", "code": "evaluation budget exceeded"})
+                for mm in st["mism"]:
+                    mm["call"] = ncall
+                    mism.append(mm)
+                if not st["mism"]:
+                    mism.append({"call": ncall, "what": "RunTerminates", "code": "evaluation budget exceeded"})
                 return {"skipped": None, "mismatches": mism, "calls": ncall}
             finally:
                 st["in_call"] = False
@@ -159,6 +216,12 @@ def replay(log, method):
                 c = c.__cause__
             if raised is not None and c is None:
                 mism.append({"call": ncall, "what": "FailureCause", "code": repr(raised.__cause__)[:160]})
+            for mm in st["mism"]:
+                mm["call"] = ncall
+                mism.append(mm)
+            st["mism"] = []
+            if method == "scripted" and script and raised is None:
+                mism.append({"call": ncall, "what": "IntegratorCalls", "model_left": len(script)})
             if st["cbs"] or st["cb_under"]:
                 mism.append({"call": ncall, "what": "CallbackCount", "model_left": len(st["cbs"]), "code_extra": st["cb_under"]})
             i = j
@@ -166,6 +229,7 @@ def replay(log, method):
             p = e["p"]
             if any(ev["ev"] in TERMINAL for ev in p["events"]):
                 approx = True
+                st["approx"] = True
             tol = (lambda a, b: abs(a - b) <= 1e-9 * max(1.0, abs(b))) if approx else (lambda a, b: Fraction(float(a)) == Fraction(float(b)))
             t = [float(x) for x in sys_.t]
             if len(t) != len(p["rows"]) or not all(tol(a, b * S) for a, b in zip(t, p["rows"])):
@@ -202,12 +266,12 @@ def run(cfgs, num, seed, methods):
     logs, tlc_states = [], 0
     for cfg in cfgs:
         b, r = behaviours(cfg, num, seed)
-        logs += b
+        logs += [(lg, "adaptive" in cfg) for lg in b]
         m = re.search(r"The number of states generated: (\d+)", r.out)
         tlc_states += int(m.group(1)) if m else 0
-    items = [(lg, methods[k % len(methods)]) for k, lg in enumerate(logs)]
+    items = [(lg, "scripted" if ad else methods[k % len(methods)]) for k, (lg, ad) in enumerate(logs)]
     res = core.pool_map(_job, items, chunksize=8)
-    return logs, items, res, tlc_states
+    return [lg for lg, _ in logs], items, res, tlc_states
 
 
 METHODS = ["RK4", "Euler", "Midpoint", "Heun's", "ABAS5O6H", "RK5", "Ralston's", "BABS9O7H", "Symplectic Forward Euler"]
@@ -249,8 +313,9 @@ def phase(run, cfgs, prefix, kinds, keep=None, replay=None, num=None):
             n_states += int(m.group(1)) if m else 0
             run.mc_runs.append({"module": "OdeSystemSim", "cfg": cfg, "simulate": "num=%d" % num, "generated": int(m.group(1)) if m else 0,
                                 "behaviours": len(b), "wall_s": round(r.wall, 2)})
-            logs += [lg for lg in b if keep is None or keep(lg)]
-        items = [(lg, METHODS[k % len(METHODS)]) for k, lg in enumerate(logs)]
+            logs += [(lg, "adaptive" in cfg) for lg in b if keep is None or keep(lg)]
+        # behaviours of the ADAPTIVE model are played through a scripted integrator that returns what TLC chose
+        items = [(lg, "scripted" if ad else METHODS[k % len(METHODS)]) for k, (lg, ad) in enumerate(logs)]
         res = core.pool_map(_job, items, chunksize=8)
     nviol = 0
     for (lg, m), r in zip(items, res):
